@@ -805,6 +805,9 @@ func (m *pkMat) pkStart(c *hx.Ctx, cd pkCand, ca pkCA) (*nebula.VerifPki, string
 func (m *pkMat) certOutcome(before *pkObs, beforePtr *nebula.CertState, after nebula.VerifPkiSnap, cd pkCand) string {
 	o := m.observe(after)
 	if !o.ok {
+		if os.Getenv("VERIF_PKI_DEBUG") != "" {
+			fmt.Fprintf(os.Stderr, "observe not ok: %+v st=%v\n", o, pkStDesc(o.st))
+		}
 		return pkOther
 	}
 	if beforePtr != nil && after.State == beforePtr {
